@@ -592,7 +592,7 @@ func checkConfig(c *run.Ctx, cc configCase) {
 	w.WaitIdle(sim.StepTimeout)
 	w.Mu.Lock()
 	var out []byte
-	if cn := w.CurConn(); cn != nil {
+	if cn := w.Cur(); cn != nil {
 		out = append(out, cn.Out...)
 	}
 	w.Mu.Unlock()
@@ -760,7 +760,7 @@ func init() {
 				c.Violate("broker-saw-protocol-violation", e, nil)
 			}
 			var types []string
-			if cn := x.w.CurConn(); cn != nil {
+			if cn := x.w.Cur(); cn != nil {
 				pk, _, err := wire.ParseStream(cn.Out, true)
 				if err != nil {
 					c.Violate("malformed-packet-emitted", err.Error(), nil)
